@@ -67,8 +67,10 @@ impl<S: State> ToSVG for Watch<S> {
 }
 impl<S: State> State for Watch<S> {
     fn score(&self) -> Option<f64> {
-        let s = self.inner.score();
+        // (the state as it was handed over for scoring: a score() that writes to the state does
+        // not get to hide what was proposed)
         let doc = serde_json::to_value(&self.inner).unwrap_or(Value::Null);
+        let s = self.inner.score();
         self.log.lock().unwrap().push((doc, s));
         s
     }
@@ -525,7 +527,10 @@ pub fn explore(group: &str, spec_label: &str, start: &AnyState, depth: usize, ca
                         if params_of_json(doc) == p {
                             f.clamped_moves += 1;
                         }
-                        if !visited.contains(&k) {
+                        // (a returned state with a parameter that is not a finite number cannot be
+                        // read back: it is judged above, not searched from)
+                        let finite = [p.length, p.ratio, p.angle, p.x, p.y, p.phi].iter().all(|v| v.is_finite());
+                        if finite && !visited.contains(&k) {
                             if visited.len() >= cap {
                                 f.cap_hit = true;
                             } else {
@@ -575,6 +580,8 @@ pub fn start_shapes(tier: Tier) -> Vec<ShapeSpec> {
         ShapeSpec::Polygon(3),
         ShapeSpec::Polygon(4),
         ShapeSpec::Polygon(6),
+        // (a polygon without any rotational symmetry)
+        ShapeSpec::Radial(vec![1., 0.6, 0.8, 0.6]),
         ShapeSpec::Circle,
         ShapeSpec::Trimer(0.637556, 120., 1.),
         ShapeSpec::LjCircle,
@@ -751,7 +758,20 @@ pub fn real_runs(tier: Tier) -> RealRuns {
     let outs = par_map(&jobs, |_, (g, s, cfg, seed)| {
         let init = AnyState::from_group(g, s);
         // start from a moderately dense state so that rejections and clamps occur
-        let start = dense_start(&init, 150, 3).unwrap_or(init);
+        let mut start = dense_start(&init, 150, 3).unwrap_or(init);
+        // every other seed: the same crystal with the site stored one cell further along x and
+        // two cells back along y (a file may say so)
+        if seed % 2 == 1 {
+            let mut doc = start.to_json();
+            let (x, y) = (doc["occupied_sites"][0]["x"].as_f64().unwrap_or(0.), doc["occupied_sites"][0]["y"].as_f64().unwrap_or(0.));
+            doc["occupied_sites"][0]["x"] = json!(x + 1.);
+            doc["occupied_sites"][0]["y"] = json!(y - 2.);
+            if let Ok(s2) = AnyState::from_json(&doc) {
+                if s2.score().is_some() {
+                    start = s2;
+                }
+            }
+        }
         let s_in = start.score();
         let obs = observed_real_run(&start, cfg, *seed);
         let an = analyse(cfg, &obs, None);
